@@ -54,6 +54,10 @@ def rangeUp (a b : Int) : List Int :=
 def forIn {σ} (vals : List Int) (init : σ) (body : Int → σ → σ) : σ :=
   vals.foldl (fun s v => body v s) init
 
+/-- A write log: `arr[i] = v` on one of a chain's scratch arrays (or an attribute assignment keyed
+    by the level) is recorded as `(i, v)`, in program order. -/
+def wr {ι α} (log : List (ι × α)) (i : ι) (v : α) : List (ι × α) := log ++ [(i, v)]
+
 /-- The code's `u <= ar` with `u` given by its logarithm. -/
 def uLe (logu : Rat) : AR → Bool
   | .zero => false
